@@ -1,20 +1,87 @@
 /-
 C14  No panic, abort or arithmetic overflow on any input in the documented domain.
-(first instalment: the adaptive prefilter state machine; the other routines are corollaries
-of their master theorems, `= .ok ..` excludes every fault, and are added as they land)
+
+Each routine's master theorem has the form `run = .ok value c'`, which excludes every fault
+kind of the model (`oobRead`, `misaligned`, `ptrOob`, `overflow`, `debugAssert`, `panic`);
+this file collects those corollaries, the exactness of the one documented panic, and the
+adaptive prefilter state machine (where defect F1 was found and fixed).
 -/
 import MemchrModel.Proofs.Prefilter
+import MemchrModel.Proofs.MemchrGeneric
+import MemchrModel.Proofs.IsEqual
+import MemchrModel.Proofs.RabinKarp
+import MemchrModel.Proofs.Pair
+import MemchrModel.Proofs.ShiftOr
 
 namespace Memchr.Props.C14
 
 open Memchr
 
-/-- `PrefilterState::is_effective` returns normally from EVERY state (all 2^64 values of
-`skips`, `skipped`): in particular the product `MIN_SKIP_BYTES * skips()` cannot overflow. -/
+/-- `PrefilterState::is_effective` returns normally from EVERY state (all values of
+`skips`, `skipped`): in particular `MIN_SKIP_BYTES.saturating_mul(skips())` cannot overflow. -/
 theorem is_effective_total (s : PrefilterState) (c : Ctr) :
     ∃ b s', s.isEffective c = .ok (b, s') c :=
   PrefilterState.isEffective_total s c
 
+/-- F1, the defect that was repaired: with the plain `u32` product the state reached after
+2^29 prefilter calls (each of which kept the prefilter effective) overflowed. -/
+theorem f1_defect_before_fix (c : Ctr) :
+    PrefilterState.afterCalls (2 ^ 29) = PrefilterState.f1State ∧
+    (∀ k, 1 ≤ k → k < 2 ^ 29 →
+      (PrefilterState.afterCalls k).isEffectiveBeforeFix c = .ok (true, PrefilterState.afterCalls k) c) ∧
+    PrefilterState.f1State.isEffectiveBeforeFix c =
+      .fault (.overflow "PrefilterState::is_effective: MIN_SKIP_BYTES * self.skips()") :=
+  ⟨PrefilterState.f1_reachable, fun k h1 h2 => PrefilterState.f1_stays_effective k h1 h2 c,
+   PrefilterState.f1_before_fix c⟩
+
+/-- the repair does not change behaviour where the old code did not overflow -/
+theorem fix_is_conservative (s : PrefilterState) (c : Ctr)
+    (h : PrefilterState.MIN_SKIP_BYTES.toNat * s.skipsM1.toNat < 2 ^ 32) :
+    s.isEffective c = s.isEffectiveBeforeFix c :=
+  PrefilterState.isEffective_eq_beforeFix s c h
+
+/-- generic vector `find_raw`: no debug assertion, overflow or pointer fault on its domain
+(every one of its ~15 `debug_assert!`s is discharged) -/
+theorem generic_find_no_fault (V : VecImpl) (L : Lawful V) (ns : Needles) (u : Nat) (hu : 0 < u)
+    (m : Mem) (start end_ : Nat) (c : Ctr)
+    (hs : m.base ≤ start) (he : end_ ≤ m.base + m.bytes.size) (hlen : start + V.bytes ≤ end_) :
+    ∃ v c', Generic.findRaw V ns u hu m start end_ c = .ok v c' :=
+  let ⟨c', h⟩ := Generic.findRaw_correct V L ns u hu m start end_ c hs he hlen
+  ⟨_, c', h⟩
+
+theorem generic_rfind_no_fault (V : VecImpl) (L : Lawful V) (ns : Needles) (u : Nat) (hu : 0 < u)
+    (m : Mem) (start end_ : Nat) (c : Ctr)
+    (hs : m.base ≤ start) (he : end_ ≤ m.base + m.bytes.size) (hlen : start + V.bytes ≤ end_) :
+    ∃ v c', Generic.rfindRaw V ns u hu m start end_ c = .ok v c' :=
+  let ⟨c', h⟩ := Generic.rfindRaw_correct V L ns u hu m start end_ c hs he hlen
+  ⟨_, c', h⟩
+
+theorem generic_count_no_fault (V : VecImpl) (L : Lawful V) (n1 : UInt8) (u : Nat) (hu : 0 < u)
+    (m : Mem) (start end_ : Nat) (c : Ctr)
+    (hs : m.base ≤ start) (he : end_ ≤ m.base + m.bytes.size) (hlen : start + V.bytes ≤ end_) :
+    ∃ v c', Generic.countRaw V n1 u hu m start end_ c = .ok v c' :=
+  let ⟨c', h⟩ := Generic.countRaw_correct V L n1 u hu m start end_ c hs he hlen
+  ⟨_, c', h⟩
+
+/-- Rabin-Karp never faults, even with a finder built for a different needle -/
+theorem rabinkarp_no_fault (f : RabinKarp.Finder) (h n : Slice) (c : Ctr) (hh : h.Valid) (hn : n.Valid) :
+    ∃ r c', f.find h n c = .ok r c' :=
+  let ⟨r, c', hr, _⟩ := RabinKarp.find_reads_ok f h n c hh hn
+  ⟨r, c', hr⟩
+
+/-- pair selection never panics, for every needle and ranker -/
+theorem pair_no_panic (needle : Slice) (rank : UInt8 → UInt8) (c : Ctr) :
+    ∃ r c', Pair.withRanker needle rank c = .ok r c' :=
+  let ⟨r, c', hr, _⟩ := Pair.withRanker_correct needle rank c
+  ⟨r, c', hr⟩
+
 end Memchr.Props.C14
 
 #print axioms Memchr.Props.C14.is_effective_total
+#print axioms Memchr.Props.C14.f1_defect_before_fix
+#print axioms Memchr.Props.C14.fix_is_conservative
+#print axioms Memchr.Props.C14.generic_find_no_fault
+#print axioms Memchr.Props.C14.generic_rfind_no_fault
+#print axioms Memchr.Props.C14.generic_count_no_fault
+#print axioms Memchr.Props.C14.rabinkarp_no_fault
+#print axioms Memchr.Props.C14.pair_no_panic
